@@ -52,6 +52,12 @@ class _QueuedResourceWorkerAdapter(Entity):
     def has_capacity(self) -> bool:
         return self._resource.has_capacity()
 
+    @property
+    def _crashed(self) -> bool:
+        # A generator process started for queued work keeps this adapter as its target: the crash
+        # gate of its continuations (ProcessContinuation.invoke) must see the resource's crash.
+        return getattr(self._resource, "_crashed", False)
+
 
 class QueuedResource(Entity, ABC):
     """An entity fronted by a queue.
